@@ -256,6 +256,8 @@ class Pfid(Contract):
                     if tier == "quick" and n == 2 and axis != "plain":
                         continue
                     yield {"irf": irf, "n": n, "axis": axis}
+            # several PFIDs of which only the first has a negative rate: its columns are unaffected by the others
+            yield {"irf": irf, "n": 2, "axis": "plain", "rates": "mixed"}
 
     def build(self, S, case):
         from glotaran.builtin.megacomplexes.pfid.pfid_megacomplex import PFIDMegacomplex
@@ -263,8 +265,11 @@ class Pfid(Contract):
         n = case["n"]
         fp, fv = _params(S, "f", n)
         rp, rv = _params(S, "g", n)
-        for r in rv:
-            S.require(L.lt(r, 0), "PFID decay rates negative (anti-causal)")
+        for j, r in enumerate(rv):
+            if case.get("rates") == "mixed" and j > 0:
+                S.require(L.ge(r, 0), "a rate that is not negative")
+            else:
+                S.require(L.lt(r, 0), "PFID decay rates negative (anti-causal)")
         for f in fv:
             S.require(L.not_(L.eq(f, 0.0)), "frequencies non-zero")
         t = np.array([-1.0, 0.5])
@@ -294,6 +299,8 @@ class Pfid(Contract):
         cells = []
         dep = case["irf"] == "shift"
         for j, lab in enumerate(inp["labels"]):
+            if case.get("rates") == "mixed" and j > 0:
+                continue  # (nothing is claimed about a PFID whose rate is not negative)
             ic, isn = labels.index(f"{lab}_cos"), labels.index(f"{lab}_sin")
             nu = inp["fv"][j]
             if case["axis"] == "inverted":
